@@ -47,6 +47,7 @@ type spec struct {
 	ID        string
 	Overlay   string // full | fsonly | none
 	Race      bool   // additionally build a -race binary (free-running pass)
+	Plain     bool   // additionally build a worker without any overlay (real os under fs; traced child)
 	Shards    [2]int // quick, thorough
 	BudgetS   [2]int // per-shard exploration budget in seconds: quick, thorough
 	Level     string
@@ -210,6 +211,10 @@ func main() {
 	if sp.Race {
 		raceBin, _ = build("fsonly", true)
 	}
+	plainBin := ""
+	if sp.Plain {
+		plainBin, _ = build("none", false)
+	}
 	buildS := time.Since(t0).Seconds()
 	n := sp.Shards[ti]
 	if *shardsF > 0 {
@@ -242,6 +247,9 @@ func main() {
 				"-budget", fmt.Sprintf("%ds", bs), "-out", out, "-seed", strconv.FormatInt(seed, 10)}
 			if raceBin != "" {
 				args = append(args, "-racebin", raceBin)
+			}
+			if plainBin != "" {
+				args = append(args, "-plainbin", plainBin)
 			}
 			cmd := exec.Command(bin, args...)
 			cmd.Dir = verifDir
